@@ -14,6 +14,7 @@ kind 'S'  the consequence for the reference statistics: precompute_summary_stats
 """
 import copy
 import json
+import math
 
 import numpy as np
 import scipy.sparse as sp
@@ -50,7 +51,7 @@ SHAPES_THOROUGH = SHAPES_QUICK + [(3, 3)]
 
 
 def budget(tier):
-    return {'quick': 2560, 'thorough': 48000}[tier]
+    return {'quick': 2560, 'thorough': 32000}[tier]
 
 
 def strategy(tier):
@@ -125,7 +126,6 @@ def _same(clause, ctx, got, want, sparse=None):
 
 
 def _do_op(it, op, x, ctx):
-    n = x.shape[0]
     if op['op'] == 'chunk':
         r0, r1 = op['r0'], op['r1']
         c = dict(ctx, op=op)
@@ -153,7 +153,6 @@ def _do_op(it, op, x, ctx):
             if arg != rows:
                 raise Violation('get_batch_mutates_argument', dict(c, after=arg))
             _same('get_batch', c, res, x[rows], sparse=sparse)
-    assert n  # (n is only used for readability of the context)
 
 
 def check_access(spec):
@@ -289,7 +288,6 @@ def check_access(spec):
 
 # ------------------------------------------------------------------ kind M
 def check_mapping(spec):
-    import math
     case = spec['case']
     cfg = case['cfg']
     runs = [('csr', None), ('csc', None), ('dense', None)]
